@@ -1,6 +1,7 @@
 package pop3
 
 import (
+	"strings"
 	"io"
 	"net/mail"
 	"time"
@@ -125,9 +126,14 @@ var vrfPMenu = []vrfPLine{
 	{"", pOther, 0},
 	{"FOO bar", pOther, 0},
 	{"\x00\xfe 1", pOther, 0},
+	// an over-long line: 4096 bytes of an unknown command followed, on the same line, by text that
+	// would be a command of its own if the line were split at the reader's buffer size
+	{vrfPLongLine, pOther, 0},
 }
 
-var vrfPQuick = []int{2, 3, 5, 7, 8, 9, 13, 15, 17, 19, 20, 23, 28, 30}
+var vrfPLongLine = "XYZZ " + strings.Repeat("x", 4091) + "DELE 1"
+
+var vrfPQuick = []int{2, 3, 5, 7, 8, 9, 13, 15, 17, 19, 20, 23, 28, 30, 35}
 
 // ---- ghost ----
 
@@ -408,14 +414,21 @@ func VerifC13Session(pre int, k int, full int, m int) {
 			g.ended = true
 			g.cut = true
 			// the connection ends by EOF, by an idle timeout or by another network error
-			switch vrf.Fork(1001 + vrf.Choose("endKind", 3)) {
+			switch vrf.Fork(1001 + vrf.Choose("endKind", 4)) {
 			case 1002:
 				return vrf.Step{Kind: vrf.StepErr, Cut: true}
 			case 1003:
 				return vrf.Step{Kind: vrf.StepErr}
+			case 1004:
+				// the connection drops inside a line: the bytes "QUIT" arrive, the line end never
+				// does - that is not a QUIT
+				return vrf.Step{Kind: vrf.StepLine, Text: "QUIT", Cut: true}
 			}
 			return vrf.Step{Kind: vrf.StepEOF}
 		}
+		// paths at different steps can only meet here if the code under test reads one scripted
+		// line in several pieces: keep them apart
+		step = vrf.Fork(step)
 		step++
 		sel := 0
 		if step <= len(prelude) {
